@@ -1,7 +1,9 @@
 #!/bin/sh
 # run every seeded change against a list of quick checks in a scratch worktree (never in /repo); prints one line per (change, check)
-# usage: tools/seeded_all.sh <outfile> ; map of change -> checks below
-WT=/tmp/wt/seedrun
+# usage: tools/seeded_all.sh <outfile> [shard nshards] ; map of change -> checks below   (shards run side by side, each in its own worktree and output directory)
+SHARD="${2:-0}"; NSH="${3:-1}"
+WT=/tmp/wt/seedrun$SHARD
+MUT_OUT=${MUT_OUT:-/tmp/mut_out}$SHARD
 git -C /repo worktree remove --force $WT 2>/dev/null
 git -C /repo worktree add -q --detach $WT HEAD || exit 2
 OUT="$1"; : > "$OUT"
@@ -15,6 +17,7 @@ checks_for() { case "$1" in
   R3_C*|R4_C*|R5_C*) echo "$1" | sed 's/R[345]_\(C[0-9]*\)_.*/\1/';; esac; }
 for d in /verif/seeded/C??_? /verif/seeded/R2_C??_? /verif/seeded/R3_C??_? /verif/seeded/R4_C??_? /verif/seeded/R5_C??_?; do
   id=$(basename $d)
+  K=$((${K:-0}+1)); [ $((K % NSH)) -eq "$SHARD" ] || continue
   P=$d/patch.diff; [ -f $d/patch_rebased.diff ] && P=$d/patch_rebased.diff
   (cd $WT && git checkout -q -- . && git apply $P) || { echo "$id APPLY_FAILED" >> "$OUT"; continue; }
   for c in $(checks_for $id); do
